@@ -44,6 +44,10 @@ class Foo:
         return f"Foo({self.v})"
 
 
+class SubStr(str):
+    """a str subclass (a string for native_concat)"""
+
+
 class LitStr:
     """an object that is not a string but whose str() is a literal"""
     def __init__(self, s):
@@ -67,6 +71,10 @@ def py_eval_or_text(text):
 
 
 def same(a, b):
+    if type(a) is str and isinstance(b, str):
+        # "the text otherwise": a single string node that is not a literal comes back as it is, which may be an
+        # instance of a str subclass (Markup, user subclass) carrying the same characters
+        return str.__eq__(a, b) is True
     if type(a) is not type(b):
         return False
     try:
@@ -165,6 +173,8 @@ VALUES = [
     lambda r: {r.choice("abc"): r.randint(0, 9) for _ in range(r.randint(0, 2))},
     lambda r: (r.randint(0, 9), "x"), lambda r: {1, 2}, lambda r: b"by", lambda r: 2j,
     lambda r: Foo(r.randint(0, 9)), lambda r: LitStr(r.choice(["42", "[1]", "x y", "{[1]: 2}", ""])),
+    lambda r: __import__("markupsafe").Markup(r.choice(["1", "<b>", "[1, 2]", ""])), lambda r: SubStr(r.choice(["42", "x", "(1,)"])),
+    lambda r: r.choice([1, 1.0, True, 0, 0.0, False]), lambda r: range(r.randint(0, 3)), lambda r: frozenset([1]),
 ]
 TEMPLATES_A = [
     "{{ x }}", "{{ x }}{{ y }}", " {{ x }}", "{{ x }} ", "[{{ x }}, {{ y }}]", "{{ x }}: {{ y }}}", "{{ '{' }}{{ x }}: 1}",
@@ -228,8 +238,24 @@ def run(ctx):
             ctx.trusted.append("Gen_native (native_concat source = model; member shapes): " + " ".join(out.split()))
     except native_translate.Untranslatable as e:
         ctx.broken.append(f"translator gen/native_translate.py: nativetypes left the translatable vocabulary: {e}")
-    envs = {False: NativeEnvironment(loader=jinja2.DictLoader(LOADER)),
-            True: NativeEnvironment(enable_async=True, loader=jinja2.DictLoader(LOADER))}
+    from jinja2.nativetypes import NativeTemplate
+    from jinja2.sandbox import SandboxedEnvironment
+
+    class SandboxedNativeEnvironment(SandboxedEnvironment, NativeEnvironment):
+        """the combination docs/nativetypes.rst describes"""
+
+    def mk(cls, is_async, **kw):
+        return cls(enable_async=is_async, loader=jinja2.DictLoader(LOADER), **kw)
+
+    axis_envs = {
+        "plain": {a: mk(NativeEnvironment, a) for a in (False, True)},
+        "autoescape": {a: mk(NativeEnvironment, a, autoescape=True) for a in (False, True)},
+        "sandboxed": {a: mk(SandboxedNativeEnvironment, a) for a in (False, True)},
+        "unoptimized": {a: mk(NativeEnvironment, a, optimized=False) for a in (False, True)},
+        "overlay": {a: mk(NativeEnvironment, a).overlay(trim_blocks=False) for a in (False, True)},
+    }
+    envs = axis_envs["plain"]
+    AXES = ["plain", "plain", "autoescape", "sandboxed", "unoptimized", "overlay", "constructor"]
 
     cases = []   # (label, source, vars, predicted pieces or None)
     for _ in range(ctx.size(1500, 20000)):
@@ -256,9 +282,16 @@ def run(ctx):
     # ---- observe pieces, build model lines
     jobs = []
     for label, src, vars_, predicted in cases:
+        axis = ctx.rng.choice(AXES)
+        if axis == "constructor" and "'" in src and any(n in src for n in LOADER):
+            axis = "plain"
+        ctx.count("axis_" + axis)
         try:
-            ts = envs[False].from_string(src)
-            ta = envs[True].from_string(src)
+            if axis == "constructor":          # Template-style construction on a spontaneous native environment
+                ts, ta = NativeTemplate(src), NativeTemplate(src, enable_async=True)
+            else:
+                ts = axis_envs[axis][False].from_string(src)
+                ta = axis_envs[axis][True].from_string(src)
         except Exception as e:  # noqa
             ctx.count("template_rejected")
             continue
